@@ -180,7 +180,7 @@ theorem frame_sound (S : Schema) (D : Frame)
     (hnd : D.names.Nodup)
     (hcols : ∀ spec ∈ S.columns, ∀ n c, spec.name = some n → D.col? n = some c →
       Spec.fieldOk spec (some n) c.dtype c.vals)
-    (hjoint : S.unique ≠ [] → Spec.rowsDistinct
+    (hjoint : S.unique ≠ [] → (S.unique.filter D.hasCol).filterMap D.col? ≠ [] → Spec.rowsDistinct
       (rowsOf D.nrows (((S.unique.filter D.hasCol).filterMap D.col?).map (·.vals))))
     (hix : ∀ ix, S.index = some ix → Spec.indexSat ix D) :
     Spec.Sat S D := by
